@@ -41,6 +41,8 @@ var litContexts = []struct{ name, tmpl string }{
 	// the literal ends a statement and the next statement begins with a bracket: the third output is printed WITHOUT
 	// semicolons, so the printer has to put one back right behind the literal
 	{"before-bracket-statement", "v = %s;\n[v][0]"},
+	// a parenthesised literal as the object of a member access: (255).valueOf(), ("a").valueOf()
+	{"grouped-receiver", "v = (%s).valueOf()"},
 }
 
 // prettyFor: the pretty configuration a literal case is printed with (default options; no semicolons for the
